@@ -237,6 +237,14 @@ def scanNumber (s : List Byte) : Option (Bool × Nat × Nat) :=
   let (v, n) := scanDigits (s1.drop sg) 0 0
   if n = 0 then none else some (neg, v, ws + sg + n)
 
+/-- `strtol(s, &end, 10)` as a `long` (clamped to its range), and the end index -/
+def strtolLong (s : List Byte) : Int × Nat :=
+  match scanNumber s with
+  | none => (0, 0)
+  | some (neg, v, e) =>
+    ((if neg then (if v > 2 ^ 63 then -(2 ^ 63 : Int) else -(v : Int))
+      else (if v > 2 ^ 63 - 1 then (2 ^ 63 - 1 : Int) else (v : Int))), e)
+
 /-- `(int) strtol(s, &end, 10)`: value after saturation to `long` and truncation to `int`, and the
 end index -/
 def strtolInt (s : List Byte) : Int × Nat :=
